@@ -149,6 +149,11 @@ def setParent (c q : Nat) (t : T) : T :=
   | none => t
   | some sub => addChild q sub (splice c (fun _ => []) t)
 
+/-- the children `Edge.collapse` hands to the tail node: with `adjust…=True` each absorbs the collapsed edge's length
+(`None` handled explicitly: nothing to add, or taken over) -/
+def collapseKids (adjust : Bool) (n : T) : List T :=
+  n.cs.map (fun ch => if adjust then ch.withLen (addLen ch.len n.len) else ch)
+
 /-- `Edge.collapse(adjust_collapsed_head_children_edge_lengths)` on the edge subtending `c` -/
 def edgeCollapse (c : Nat) (adjust : Bool) (t : T) : Except Err T :=
   if c == t.id then .ok t else
@@ -156,12 +161,7 @@ def edgeCollapse (c : Nat) (adjust : Bool) (t : T) : Except Err T :=
   | none => .ok t
   | some n =>
     if n.cs.isEmpty then .error .valueError else
-    .ok (splice c (fun n => n.cs.map (fun ch =>
-      if adjust then
-        match n.len with
-        | none => ch
-        | some _ => ch.withLen (addLen ch.len n.len)
-      else ch)) t)
+    .ok (splice c (collapseKids adjust) t)
 
 /-- `Node.collapse_clade()`: the leaves below become the children, in leaf order -/
 def collapseClade (c : Nat) (t : T) : T :=
